@@ -58,22 +58,37 @@ def rule_grounded_propagation(ctx):
         "defeats the targets D of its attacks; for a D defeated for the first time (marked in the same step, tested before) each target X of D's "
         "attacks loses one attacker: it joins the set when its counter is 1, otherwise the counter is decremented by 1; nothing else enters the set",
     )
-    fns = [b for b in prog.lib_bodies() if b.kind != "closure" and b.path.startswith(MOD + "::") and re.match(r"^alloc::vec::Vec<&.*Label<T>>$|^alloc::vec::Vec<&.*Argument<T>>$", b.ret_ty)]
+    # the entry point: the function of the module that the rest of the crate calls
+    fns = [b for b in prog.lib_bodies() if b.kind != "closure" and b.path.startswith(MOD + "::") and re.match(r"^alloc::vec::Vec<&.*Label<T>>$|^alloc::vec::Vec<&.*Argument<T>>$", b.ret_ty) and any(not c.body.path.startswith(MOD + "::") for c in prog.callers_of(b))]
     if not r.require_anchor(len(fns) == 1, "the function computing the grounded extension in " + MOD):
         return
     F = fns[0]
-    bodies = prog.with_closures(F)
-    pushes = [(y, s) for y in bodies for s in y.calls() if callee_decl(callee_of(s)) == "alloc::vec::Vec::push" and "Label<" in str(callee_of(s).get("substs"))]
-    r.floor(len(pushes), 2, "pushes into the extension under construction")
-    n_init = n_def = 0
-    for k, (y, s) in enumerate(pushes):
+    bodies = []
+    for x in [F] + [x for x in prog.reachable_from([F], virtual_dispatch=False).values() if x.kind != "closure" and x.path.startswith(MOD + "::") and x is not F]:
+        for y in prog.with_closures(x):
+            if y not in bodies:
+                bodies.append(y)
+    raw = [(y, s) for y in bodies for s in y.calls() if callee_decl(callee_of(s)) == "alloc::vec::Vec::push" and "Label<" in str(callee_of(s).get("substs"))]
+    r.floor(len(raw), 1, "pushes into the extension under construction")
+    # a push of a helper's parameter is judged at the helper's call sites (value and governing conditions)
+    pushes = []
+    for y, s in raw:
         xs = prov(prog, y, s.node["args"][1])
+        own = _cond_trees(prog, inherited_conditions(prog, y, s.bb))
+        if len(xs) == 1 and next(iter(xs))[0] == "param" and y.kind != "closure" and not next(iter(xs))[3] and prog.callers_of(y):
+            kpar = next(iter(xs))[2]
+            for cs in prog.callers_of(y):
+                if kpar - 1 < len(cs.node["args"]):
+                    pushes.append((cs.body, cs, prov(prog, cs.body, cs.node["args"][kpar - 1]), own + _cond_trees(prog, inherited_conditions(prog, cs.body, cs.bb))))
+        else:
+            pushes.append((y, s, xs, own))
+    n_init = n_def = 0
+    for k, (y, s, xs, conds) in enumerate(pushes):
         anchor = "%s|member#%d" % (F.id, k)
         if len(xs) != 1:
             r.ok(anchor, "NOT decided: pushed value not one expression", s.loc())
             continue
         x = next(iter(xs))
-        conds = _cond_trees(prog, inherited_conditions(prog, y, s.bb))
         if x[0] == "elem" and _is_call(x[1], r"ArgumentSet::iter$|LabelSet::iter$"):
             # an argument of the set: initial member
             n_init += 1
@@ -132,7 +147,10 @@ def rule_grounded_propagation(ctx):
             r.check(bool(last and same), anchor + "|counter", "counter-test:%s %s %s" % (op, kconst, t), "joins the set when its last undefeated attacker falls (counter is 1)", "a defended argument joins the set under the test `counter %s %s is %s`%s: not `when its last undefeated attacker is defeated`" % (op, kconst, t, "" if same else " on another argument's counter"), s.loc())
         # first-defeat guard: the step runs under `not defeated[D]`, and D is marked in the same step
         guard = [(e, t) for e, t in conds if _is_call(e, r"Index::index$", 2) and (_peel_id(e[2][1]) == D)]
-        if not guard:
+        hidden = [e for e, t in conds if e[0] == "call" and not _is_call(e, r"Index::index$") and D in [_peel_id(a) or a for a in e[2]] + list(e[2])]
+        if not guard and hidden:
+            r.ok(anchor + "|once", "NOT decided: the first-defeat test is made by %s" % hidden[0][1].rsplit("::", 1)[-1], s.loc())
+        elif not guard:
             r.violation(anchor + "|once", "no-first-defeat-guard", "the attackers' counters are lowered for every attack on %s, not only the first time it is defeated: an argument attacked twice by members is counted twice" % show(D)[:80], s.loc())
         else:
             r.check(all(t is False for e, t in guard), anchor + "|once", "guard-polarity", "the step runs only the first time D is defeated", "the counters are lowered only when the defeated argument was *already* marked", s.loc())
